@@ -1146,3 +1146,8 @@ Definition wf (s : state) : Prop :=
   NoDup (map fst (sc_vars s)) /\ NoDup (map fst (ar_dims s))
   /\ (forall n d, In (n, d) (ar_dims s) -> Forall (fun x => 0 <= x) d)
   /\ dims_ok s.
+
+(* invariant of Arrays.allocate: every array has dimensions and a buffer of the size they determine *)
+Definition bufs_ok (s : state) : Prop :=
+  forall n d b, alookup n (ar_dims s) = Some d -> alookup n (ar_bufs s) = Some b ->
+    d <> [] /\ forall bb, ar_base s = Some bb -> array_buffer_size (Some bb) n d = Ok (zlen b).
